@@ -24,6 +24,15 @@ CHECKS = {
   'C09': dict(category='translation_validation', technique='symbolic execution of both implementations on the same symbolic inputs + QF_LRA equivalence queries',
               text='Translation validation of RealSphericalHarmonics vs FastSphericalHarmonics under the fixed re-indexing for every Grid operation and each option combination (padding multiple, stacked transforms, einsum order), for ALL inputs in the box; model tendencies compared as polynomial identities.',
               design='§3 C09'),
+  'C10': dict(category='other', technique='symbolic execution of the traced jaxpr (polynomial normal forms, matched atoms) + QF_LRA monomial-abstraction queries',
+              text='Equivariance decided as polynomial identities for ALL admissible states: tendency(T x) = T tendency(x) and one Euler/leapfrog step, T = rotation by grid steps (several k) or equatorial mirror (vorticity pseudo-scalar), dry/moist primitive equations and shallow water, both transform classes.',
+              design='§3 C10'),
+  'C11': dict(category='other', technique='one inductive step decided symbolically: jaxpr interpretation on arbitrary states / stand-in operators returning fresh symbols + exact (eps=0) and QF_LRA queries; DCE of the clock output',
+              text='Each structural invariant is shown inductive from an ARBITRARY invariant-satisfying state: explicit tendencies vanish exactly outside the truncation/top wavenumber with zero vorticity/divergence mean; implicit terms and solve preserve the subspace; every integrator keeps the complement at 0 and advances the clock by dt; direct filtered Euler/leapfrog steps; shallow-water mean thickness.',
+              design='§3 C11'),
+  'C12': dict(category='other', technique='symbolic execution of the traced jaxpr under two Scale objects + QF_LRA monomial-abstraction queries',
+              text='The same SI problem built under two unit scales (default, atmospheric, SI, odd, seeded decades) gives SI-equal tendencies and Euler step for ALL states in the box: dry and moist primitive equations, shallow water.',
+              design='§3 C12'),
   'C13': dict(category='other', technique='symbolic execution of the traced jaxpr + QF_LRA queries (monomial abstraction for bilinear clauses)',
               text='Bounded symbolic verification of the sigma calculus identities for ALL column data and vertical velocities on each enumerated level set (even, dyadic uneven, seeded random), axis and shape.',
               design='§3 C13'),
